@@ -19,7 +19,7 @@ if ! cargo build --release --quiet 2> "$ROOT/harness/target/build.log"; then
   fi
 fi
 if [ "$ID" = "C20" ]; then
-  if ! cargo build --release --quiet -p rspirv-dis --manifest-path /repo/Cargo.toml --target-dir "$ROOT/target/dis" 2> "$ROOT/target/dis-build.log"; then
+  if ! CARGO_PROFILE_RELEASE_OVERFLOW_CHECKS=true CARGO_PROFILE_RELEASE_DEBUG_ASSERTIONS=true cargo build --release --quiet -p rspirv-dis --manifest-path /repo/Cargo.toml --target-dir "$ROOT/target/dis" 2> "$ROOT/target/dis-build.log"; then
     cat "$ROOT/target/dis-build.log" >&2
     echo "rspirv-dis build failed (infrastructure, not a violation)" >&2
     exit 2
